@@ -11,7 +11,7 @@
 // is replayed on a fresh file (every prefix of a sequence is a trace of its own, so the oracle runs after every
 // operation; a trace is not extended past the first step after which something is wrong).  A write goes through the
 // untyped setData(DataType, const void*, count, offset) when (position + letter index) is even and through the typed
-// overloads otherwise (std::vector<T> at rank 1, boost::multi_array<T,N>, scalar T for a single cell); Append goes through
+// overloads otherwise (std::vector<T> / T[2] / T[3] at rank 1, boost::multi_array<T,N>, scalar T for a single cell); Append goes through
 // appendData, Grow / Shrink through dataExtent(NDSize), SetWhole through the typed setData(container) that also sets the
 // extent.  Steps at odd positions are applied through a freshly fetched handle, the others through a handle that is kept
 // alive across the sequence.  REOPEN closes the file and opens it again (ReadWrite; as the last step of a trace
@@ -431,9 +431,32 @@ struct Runner {
         if (off) h.setData(v, nd(*off)); else h.setData(v);
     }
     static void vec_write(DataArray &, const Ext *, const std::vector<S> &, std::true_type) {}   // std::vector<bool> has no data()
-    bool vector_possible(bool want_vector) const { return rank == 1 && want_vector && !is_bool::value; }
-    void container_write(DataArray &h, const Ext &cnt, const Ext *off, const std::vector<S> &vals, bool want_vector) {
-        if (vector_possible(want_vector)) { vec_write(h, off, vals, is_bool()); return; }
+    // the container a typed access goes through: wish 0 = multi_array, 1 = std::vector, 2 = native array T[2] / T[3]; vectors and
+    // native arrays at rank 1 only (native arrays for 2 or 3 elements), multi_array otherwise
+    enum CK { CK_MA = 0, CK_VEC = 1, CK_NAT = 2 };
+    CK container_kind(int wish, const Ext &cnt) const {
+        if (rank == 1 && wish == 1 && !is_bool::value) return CK_VEC;
+        if (rank == 1 && wish == 2 && (cnt[0] == 2 || cnt[0] == 3)) return CK_NAT;
+        return CK_MA;
+    }
+    static const char *ck_name(CK k) { return k == CK_VEC ? "std::vector" : k == CK_NAT ? "native array" : "multi_array"; }
+    template <size_t N> static void nat_write(DataArray &h, const Ext *off, const std::vector<S> &vals) {
+        T a[N];
+        for (size_t i = 0; i < N; i++) a[i] = X::typed(vals[i]);
+        if (off) h.setData(a, nd(*off)); else h.setData(a);
+    }
+    template <size_t N> static void nat_read(const DataArray &h, int mode, const Slab &s, const std::vector<S> &prefill, std::vector<S> &out, Ext &shape) {
+        T a[N];
+        for (size_t i = 0; i < N; i++) a[i] = X::typed(prefill[i]);
+        if (mode == 0) h.getData(a); else if (mode == 1) h.getData(a, nd(s.cnt), nd(s.off)); else h.getData(a, nd(s.off));
+        shape.assign(1, N);
+        out.resize(N);
+        for (size_t i = 0; i < N; i++) out[i] = X::load(a + i);
+    }
+    void container_write(DataArray &h, const Ext &cnt, const Ext *off, const std::vector<S> &vals, int wish) {
+        const CK ck = container_kind(wish, cnt);
+        if (ck == CK_VEC) { vec_write(h, off, vals, is_bool()); return; }
+        if (ck == CK_NAT) { if (cnt[0] == 2) nat_write<2>(h, off, vals); else nat_write<3>(h, off, vals); return; }
         switch (rank) {
         case 1: ma_write<1>(h, cnt, off, vals); break;
         case 2: ma_write<2>(h, cnt, off, vals); break;
@@ -461,8 +484,10 @@ struct Runner {
         for (size_t i = 0; i < out.size(); i++) out[i] = X::load(v.data() + i);
     }
     static void vec_read(const DataArray &, int, const Slab &, const std::vector<S> &, std::vector<S> &, Ext &, std::true_type) {}
-    void container_read(const DataArray &h, int mode, const Slab &s, const std::vector<S> &prefill, std::vector<S> &out, Ext &shape, bool want_vector) {
-        if (vector_possible(want_vector)) { vec_read(h, mode, s, prefill, out, shape, is_bool()); return; }
+    void container_read(const DataArray &h, int mode, const Slab &s, const std::vector<S> &prefill, std::vector<S> &out, Ext &shape, int wish) {
+        const CK ck = container_kind(wish, s.cnt);
+        if (ck == CK_VEC) { vec_read(h, mode, s, prefill, out, shape, is_bool()); return; }
+        if (ck == CK_NAT) { if (s.cnt[0] == 2) nat_read<2>(h, mode, s, prefill, out, shape); else nat_read<3>(h, mode, s, prefill, out, shape); return; }
         switch (rank) {
         case 1: ma_read<1>(h, mode, s, prefill, out, shape); break;
         case 2: ma_read<2>(h, mode, s, prefill, out, shape); break;
@@ -500,7 +525,7 @@ struct Runner {
             h = h * 31 + (uint64_t)l.ai + 1;
             if (!enabled(l, m.ext)) { K = nix::none; b = nix::none; f.close(); return false; }
             const bool typed = ((si + (size_t)l.ai) & 1) != 0;
-            const bool want_vector = ((h >> 4) & 1) != 0;
+            const int wish = (int)((h >> 4) % 3);
             const bool variant = (nwrites & 1) != 0;
             Ext off(rank, 0), cnt = m.ext, newext = m.ext;
             std::vector<S> vals;
@@ -534,9 +559,9 @@ struct Runner {
                 k += (long)n;
                 nwrites++;
                 if (l.kind == APPEND) how = "untyped";
-                else if (l.kind == SETWHOLE_PLUS || l.kind == SETWHOLE_MINUS) how = vector_possible(want_vector) ? "std::vector" : "multi_array";
+                else if (l.kind == SETWHOLE_PLUS || l.kind == SETWHOLE_MINUS) how = ck_name(container_kind(wish, cnt));
                 else if (!typed) how = "untyped";
-                else how = single ? "scalar" : vector_possible(want_vector) ? "std::vector" : "multi_array";
+                else how = single ? "scalar" : ck_name(container_kind(wish, cnt));
                 if (l.kind <= W_SLAB) ops += "(" + how + ")";
             }
             trace += " ; " + letter_str(l);
@@ -574,7 +599,7 @@ struct Runner {
             exc = vf::guarded([&] {
                 switch (l.kind) {
                 case W_FULL: case W_EXTREMES: case W_SLAB:
-                    if (typed) container_write(W, cnt, &off, vals, want_vector);
+                    if (typed) container_write(W, cnt, &off, vals, wish);
                     else W.setData(X::dt(), vals.data(), nd(cnt), nd(off));
                     break;
                 case W_CELL_FIRST: case W_CELL_LAST:
@@ -582,7 +607,7 @@ struct Runner {
                     else W.setData(X::dt(), vals.data(), nd(cnt), nd(off));
                     break;
                 case APPEND: W.appendData(X::dt(), vals.data(), nd(cnt), (size_t)l.axis); break;
-                case SETWHOLE_PLUS: case SETWHOLE_MINUS: container_write(W, cnt, nullptr, vals, want_vector); break;
+                case SETWHOLE_PLUS: case SETWHOLE_MINUS: container_write(W, cnt, nullptr, vals, wish); break;
                 case GROW: case SHRINK: W.dataExtent(nd(newext)); break;
                 case POLY12: W.polynomCoefficients(std::vector<double>{1.0, 2.0}); break;
                 case POLY001: W.polynomCoefficients(std::vector<double>{0.0, 0.0, 1.0}); break;
@@ -749,12 +774,13 @@ struct Runner {
         invert_expected(p, m, s, is_bool());
         return p;
     }
-    void typed_container(const DataArray &h, const Model<T> &m, bool kept, int mode, const Slab &s, bool want_vector) {
-        const bool vec = vector_possible(want_vector);
-        const std::string p = std::string(mode == 0 ? "getData(" : mode == 1 ? "getData(count, offset, " : "getData(offset, pre-sized ") + (vec ? "std::vector)" : "multi_array)");
+    void typed_container(const DataArray &h, const Model<T> &m, bool kept, int mode, const Slab &s, int wish) {
+        const CK ck = container_kind(wish, s.cnt);
+        const bool vec = ck != CK_MA;
+        const std::string p = std::string(mode == 0 ? "getData(" : mode == 1 ? "getData(count, offset, " : "getData(offset, pre-sized ") + ck_name(ck) + ")";
         std::vector<S> got; Ext shape;
         std::string what;
-        std::string exc = vf::guarded([&] { container_read(h, mode, s, prefill_for(m, s), got, shape, want_vector); }, &what);
+        std::string exc = vf::guarded([&] { container_read(h, mode, s, prefill_for(m, s), got, shape, wish); }, &what);
         tally("read_calls");
         if (!exc.empty()) { read_throws(kept, p, exc, what, s); return; }
         Ext want_shape = vec ? Ext(1, s.idx.size()) : s.cnt;
@@ -818,7 +844,7 @@ struct Runner {
             if (!full) return;
             Slab s = make_slab(m.ext, Ext(rank, 0), m.ext);
             std::vector<S> got; Ext shape;
-            exc = vf::guarded([&] { container_read(h, 0, s, std::vector<S>(), got, shape, (rot & 1) != 0); }, &what);
+            exc = vf::guarded([&] { container_read(h, 0, s, std::vector<S>(), got, shape, (int)(rot & 1)); }, &what);
             tally("read_calls");
             dst("outcomes", "typed whole read of an array without cells|" + tn + "|" + (exc.empty() ? "returns" : exc));
             if (exc.empty() && !got.empty())
@@ -840,13 +866,13 @@ struct Runner {
             read_own(h, m, kept, false, slabs[si]);
         }
         // ---- typed reads ----
-        const bool wv = (rot & 1) != 0;
+        const int wv = (int)(rot % 3);
         typed_container(h, m, kept, 0, whole, wv);
         if (slabs.size() > 1) {
             const Slab &a = slabs[1 + (rot >> 1) % (slabs.size() - 1)];
             const Slab &c = slabs[1 + (rot >> 5) % (slabs.size() - 1)];
-            typed_container(h, m, kept, 1, a, !wv);
-            typed_container(h, m, kept, 2, c, wv);
+            typed_container(h, m, kept, 1, a, (wv + 1) % 3);
+            typed_container(h, m, kept, 2, c, (wv + 2) % 3);
             // a line: a slab with at most one axis longer than 1
             for (size_t j = 0; j < slabs.size(); j++) {
                 const Slab &ln = slabs[(j + (rot >> 9)) % slabs.size()];
@@ -856,7 +882,7 @@ struct Runner {
                 break;
             }
         } else {
-            typed_container(h, m, kept, 1, whole, !wv);
+            typed_container(h, m, kept, 1, whole, (wv + 1) % 3);
         }
         {
             Ext lastpos(rank); for (size_t i = 0; i < rank; i++) lastpos[i] = m.ext[i] - 1;
@@ -964,6 +990,8 @@ template <typename T> static void explore(const Config &cfg) {
         long cid = g_caseno++;
         if (!vf::take_case(cid)) continue;
         Runner<T> R(cfg);
+        const double t0 = vf::wall();
+        struct Timer { double t0; std::string key; ~Timer() { vf::count(key, (long)((vf::wall() - t0) * 1000.0)); } } timer{t0, "wall_ms_family_" + cfg.family + "_rank" + std::to_string(cfg.rank)};
         std::string lead;
         for (const Letter &l : pre) lead += (lead.empty() ? "" : " ; ") + letter_str(l);
         const std::string cdesc = base + ", sequences starting with " + lead;
@@ -1012,7 +1040,7 @@ template <typename T> static void explore(const Config &cfg) {
             vf::distinct("storage", si);
             if (vf::opt.verbose) fprintf(stderr, "C01 storage: %s\n", si.c_str());
         }
-        if (g_sampled < 6 && pi % 5 == 2) {
+        if (g_sampled < 6 && cid % 41 == 7) {
             g_sampled++;
             vf::sample("{\"config\":" + vf::jstr(base) + ",\"last_trace_of_case\":" + vf::jstr(R.trace) + "}", 6);
         }
